@@ -298,6 +298,9 @@ pub fn run_built(sc: Scenario, built: Result<Tracer, String>, tape: Tape, opts: 
                         rec
                     });
                     rs.push(rec);
+                    if sc.clear_after_round == Some(idx) {
+                        tracer.clear();
+                    }
                 })
             }));
             IN_SIM.with(|c| c.set(false));
@@ -353,6 +356,7 @@ fn neighbour_stream(sc: &Scenario, n: crate::scenario::NeighbourCfg) -> Vec<(u64
     b.neighbour = None;
     b.record_rx = true;
     b.alone_equal = false;
+    b.clear_after_round = None;
     b.inject = crate::scenario::InjectCfg::default();
     b.faults.sock_pm = 0;
     b.faults.addr_in_use_pm = 0;
